@@ -631,6 +631,71 @@ def failing_atoms(conds, keyvar: str, key: str, env: KeyEnv) -> List[Tuple[ast.A
 class GenericCopy:
     def __init__(self, call, dst, srcobj, keyvar, conds, loop):
         self.call, self.dst, self.src, self.keyvar, self.conds, self.loop = call, dst, srcobj, keyvar, conds, loop
+        self.live: List[Tuple[str, ast.AST, ast.stmt]] = []     # (name, value, assignment) of once-computed LIVE dict views of dst
+
+
+_SNAPSHOT = ('list', 'tuple', 'set', 'frozenset', 'sorted')
+
+
+def name_set_kind(e: ast.AST):
+    """how expression e denotes the attribute names of an object X:
+    ('live', X)      X.__dict__ | vars(X) | <those>.keys()           - a view that follows later attribute stores on X
+    ('snapshot', X)  list/tuple/set/frozenset/sorted(<live>) | {k for k in <live>} | [k for k in <live>] | X.__dict__.copy() | dict(<X.__dict__>)
+    None             anything else"""
+    if dict_owner(e) is not None:
+        return 'live', dict_owner(e)
+    if isinstance(e, ast.Call) and isinstance(e.func, ast.Attribute) and e.func.attr == 'keys' and not e.args and dict_owner(e.func.value) is not None:
+        return 'live', dict_owner(e.func.value)
+    if isinstance(e, ast.Call) and isinstance(e.func, ast.Attribute) and e.func.attr == 'copy' and not e.args and dict_owner(e.func.value) is not None:
+        return 'snapshot', dict_owner(e.func.value)
+    if isinstance(e, ast.Call) and isinstance(e.func, ast.Name) and e.func.id in _SNAPSHOT + ('dict',) and len(e.args) == 1 and not e.keywords:
+        inner = name_set_kind(e.args[0])
+        if inner is not None and (e.func.id != 'dict' or dict_owner(e.args[0]) is not None):
+            return 'snapshot', inner[1]
+        return None
+    if isinstance(e, (ast.SetComp, ast.ListComp)) and len(e.generators) == 1 and not e.generators[0].ifs \
+            and isinstance(e.generators[0].target, ast.Name) and isinstance(e.elt, ast.Name) and e.elt.id == e.generators[0].target.id:
+        inner = name_set_kind(e.generators[0].iter)
+        return ('snapshot', inner[1]) if inner is not None else None
+    return None
+
+
+def _is_unset_test(t: ast.AST, pol: bool, name: str) -> bool:
+    """(t, pol) says `name is None` (the lazily computed value has not been computed yet)"""
+    if isinstance(t, ast.UnaryOp) and isinstance(t.op, ast.Not):
+        if isinstance(t.operand, ast.Name) and t.operand.id == name:
+            return pol
+        return _is_unset_test(t.operand, not pol, name)
+    if isinstance(t, ast.Compare) and len(t.ops) == 1 and isinstance(t.left, ast.Name) and t.left.id == name and _is_none(t.comparators[0]):
+        if isinstance(t.ops[0], (ast.Is, ast.Eq)):
+            return pol
+        if isinstance(t.ops[0], (ast.IsNot, ast.NotEq)):
+            return not pol
+    return False
+
+
+def once_value(fx: 'FX', name: str, loop: ast.For, use: ast.AST, keep=()):
+    """`name = None` before `loop`, and inside it `if name is None: name = E` on the way to `use` (nothing else assigns name):
+    the value read at `use` is E as evaluated in the FIRST pass of the loop  ->  (E expanded, the assignment); else None"""
+    defs = fx.flow.defs_of(name)
+    if len(defs) != 2 or any(d.kind != 'assign' or d.value is None or d.stmt is None for d in defs):
+        return None
+    init = [d for d in defs if _is_none(d.value) and loop not in fx.enclosing_fors(d.stmt)]
+    comp = [d for d in defs if not _is_none(d.value) and loop in fx.enclosing_fors(d.stmt)]
+    if len(init) != 1 or len(comp) != 1:
+        return None
+    d = comp[0]
+    outer = len(fx.cfg.conditions(fx.cfg.node_of(loop))) if fx.cfg.node_of(loop) is not None else 0
+    cs = fx.cfg.conditions(d.node)[outer:]
+    if len(cs) != 1 or not _is_unset_test(cs[0][0], cs[0][1], name):
+        return None
+    # the guarded assignment lies before the use in the loop body and its `if` is passed on every way to the use
+    tn, un = fx.cfg.node_containing(cs[0][0]), fx.cfg.node_containing(use)
+    if tn is None or un is None or not fx.cfg.dominates(tn, un) or fx.cfg.dominates(un, tn):
+        return None
+    if not fx.cfg.dominates(fx.cfg.node_of(init[0].stmt), fx.cfg.node_of(loop)):
+        return None
+    return fx.x(d.value, keep=keep), d.stmt
 
 
 def generic_copies(ctx, func: Func) -> List[GenericCopy]:
@@ -664,9 +729,42 @@ def generic_copies(ctx, func: Func) -> List[GenericCopy]:
                 ok = True
             if ok:
                 keep = [n.id for n in (dst, owner) if isinstance(n, ast.Name)]
-                out.append(GenericCopy(c, dst, owner, k.id, fx.conds(c, keep=keep), fo))
+                gc = GenericCopy(c, dst, owner, k.id, fx.conds(c, keep=keep), fo)
+                _resolve_once_names(fx, gc, keep)
+                out.append(gc)
             break
     return out
+
+
+def _resolve_once_names(fx: 'FX', gc: GenericCopy, keep) -> None:
+    """filter atoms `k in NAME` where NAME is the attribute-name set of the destination object computed once in the first
+    pass of the object loop (`if NAME is None: NAME = set(dst.__dict__)`): NAME is replaced by `dst.__dict__` (the names the
+    constructor stores - the same for every row); a LIVE view (`dst.__dict__.keys()`) is recorded in gc.live"""
+    outer = [l for l in fx.enclosing_fors(gc.call) if l is not gc.loop]
+    if len(outer) != 1:
+        return
+    sub = {}
+    for t, _pol in gc.conds:
+        for n in ast.walk(t):
+            if not (isinstance(n, ast.Compare) and len(n.ops) == 1 and isinstance(n.ops[0], (ast.In, ast.NotIn))
+                    and isinstance(n.comparators[0], ast.Name)):
+                continue
+            name = n.comparators[0].id
+            if name in sub or name in keep:
+                continue
+            ov = once_value(fx, name, outer[0], gc.call, keep=keep)
+            if ov is None:
+                continue
+            kind = name_set_kind(ov[0])
+            if kind is None or not same(kind[1], gc.dst):
+                continue
+            # between the construction of dst and the once-assignment nothing may store attributes on dst: the copy call
+            # itself comes later (checked by once_value: the guard dominates the use)
+            sub[name] = ast.Attribute(value=copy.deepcopy(kind[1]), attr='__dict__', ctx=ast.Load())
+            if kind[0] == 'live':
+                gc.live.append((name, ov[0], ov[1]))
+    if sub:
+        gc.conds = [(subst(t, sub), pol) for t, pol in gc.conds]
 
 
 # --------------------------------------------------------------------------------------------------------- row helpers
